@@ -26,6 +26,13 @@ Families (--tier quick: 3000 histories, thorough: 15000 per seed):
   sigwinch  tickit_term_observe_sigwinch over the main terminal and up to six further ones: observe / stop in any
             order, terminals destroyed at any position of the observer list (mostly third or later), SIGWINCH raised
             afterwards, the main terminal released through its root window
+  drag      drag gestures aimed at a window of a chain root > panel > handle (> grip): the handler of the source (bound before
+            the press, after it, or replaced after DRAG_START) closes / hides / drops / restacks its own window or one above
+            it; the application drops or closes the chain afterwards; further DRAG reports and the RELEASE
+  timers    watches of the toplevel instance (and key handlers on the terminal) that register timers for past, present and
+            future instants and deferred calls while they run
+  termout   the output side through the real xterm driver: tickit_term_set_output_buffer around what is pending, printn,
+            goto, flush, the capability report, setpen / chpen with pens of every attribute (19 SGR parameters)
 exhaustive: every order of <= 5 lifecycle operations on a root with two nested children and one pen
             (DESIGN §7 C08), each followed by flush and end.
 """
@@ -1021,8 +1028,49 @@ if a.tier == "exhaustive":
             for o in (["xobs 0 1", "tobs 1", "xobs 1 1", "xobs 2 1"] if len(seq) % 2 else ["tobs 1", "xobs 2 1", "xobs 1 1", "xobs 0 1"]): emit(o)
             for o in seq: emit(o)
             emit("winch"); emit("end"); nsw += 1
-    info = {"mock_display_histories": nm, "terminput_histories": nt, "toplevel_histories": ni, "mock_resize_histories": nr, "sigwinch_histories": nsw}
-    info.update({"exhaustive_bound": "all sequences of <=3 (and a seed-selected quarter of the length-4) operations over a 13-letter lifecycle alphabet on root>1>2, 3 sibling of 1, one pen, one self-unref key handler; each followed by flush and end; tickit_mockterm_get_display_text with every buffer length (short of the known exact-fill overflow) for every span of five fixed lines of multi-byte, double-width and combining cells; all sequences of <=3 operations over a 12-letter alphabet of terminal input calls with a quitting key handler on the terminal, and over a 14-letter alphabet of toplevel-instance calls on root>1>2; tickit_mockterm_resize from 3x4 to every size of 1..5 x 1..6 and on to a second size; all sequences of <=2 (and half of those of 3) operations over a 12-letter alphabet of observe/stop/destroy/SIGWINCH on four observing terminals", "histories": nh})
+    # the output side: every sequence of <= 3 operations (and a seed-selected third of those of 4) over buffer lengths around
+    # what is pending, printing, flushing and the 19-parameter pen, on a terminal with both capabilities
+    RICH = "fg=200#c80a14,bg=100#0102fa,b=1,u=3,i=1,rv=1,strike=1,af=2,blink=1,sizepos=2"
+    alpha_o = ["tbuf 0", "tbuf 1", "tbuf 7", "tbuf 40", "tprint 6162636465", "tprint " + "78" * 12, "tflush", "tsetpen " + RICH,
+               "tchpen fg=3,u=2", "tgoto 2 3"]
+    no = 0
+    for k in range(1, 5):
+        for seq in itertools.product(alpha_o, repeat=k):
+            if k == 4 and (dhash(seq) ^ a.seed) % 3 != 0: continue
+            emit("new 6 12"); emit("tcaps 1 1 %s" % ("reply" if len(seq) % 2 else "ctl"))
+            for o in seq: emit(o)
+            emit("end"); no += 1
+    # timers that register timers: every sequence of <= 3 operations over registrations whose callbacks register a past, a
+    # present and a future timer or a deferred call, ticks and the clock
+    alpha_w = ["itimer 0 a0", "itimer 0 a0 l a5", "itimer 10 a0 a10", "ilater a0 l", "itimerat 0 l", "itick", "itick a", "tick 10",
+               "icancel 1", "tbind key 0 a0 l"]
+    nwt = 0
+    for k in range(1, 4):
+        for seq in itertools.product(alpha_w, repeat=k):
+            emit("newtop 4 8")
+            for o in seq: emit(o)
+            emit("itick")
+            if (dhash(seq) ^ a.seed) % 2: emit("unref 0"); emit("iunref")
+            emit("end"); nwt += 1
+    # drags on root > 1 > 2 (window 2 the source): what the source's handler does (bound before or after the press, claiming
+    # or not), what the application drops afterwards, how the drag goes on
+    ndr = 0
+    for acts in ["", "c1", "c2", "h1", "u2", "c1 r2", "x c1", "R2 c1"]:
+        for early in (0, 1):
+            for ret in (0, 1):
+                for after in ([], ["unref 1"], ["unref 2"], ["close 1", "unref 1"], ["unref 2", "unref 1"], ["flush", "unref 1"]):
+                    for tail in (["mouse 2 1 3 6", "mouse 3 1 3 6"], ["mouse 2 1 8 15", "mouse 2 1 3 5", "mouse 3 1 8 15"], ["mouse 3 1 0 0"]):
+                        emit("new 10 20"); emit("win 0 2 2 6 12 0"); emit("win 1 1 1 3 8 0")
+                        b = ("bind 2 mouse %d %s" % (ret, acts)).strip()
+                        if early: emit(b)
+                        emit("mouse 1 1 4 5")
+                        if not early: emit(b)
+                        emit("mouse 2 1 4 6")
+                        for o in after: emit(o)
+                        for o in tail: emit(o)
+                        emit("end"); ndr += 1
+    info = {"termout_histories": no, "timer_callback_histories": nwt, "drag_histories": ndr, "mock_display_histories": nm, "terminput_histories": nt, "toplevel_histories": ni, "mock_resize_histories": nr, "sigwinch_histories": nsw}
+    info.update({"exhaustive_bound": "all sequences of <=3 (and a seed-selected quarter of the length-4) operations over a 13-letter lifecycle alphabet on root>1>2, 3 sibling of 1, one pen, one self-unref key handler; each followed by flush and end; tickit_mockterm_get_display_text with every buffer length (short of the known exact-fill overflow) for every span of five fixed lines of multi-byte, double-width and combining cells; all sequences of <=3 operations over a 12-letter alphabet of terminal input calls with a quitting key handler on the terminal, and over a 14-letter alphabet of toplevel-instance calls on root>1>2; tickit_mockterm_resize from 3x4 to every size of 1..5 x 1..6 and on to a second size; all sequences of <=2 (and half of those of 3) operations over a 12-letter alphabet of observe/stop/destroy/SIGWINCH on four observing terminals; all sequences of <=3 (and a third of those of 4) operations over a 10-letter alphabet of output-buffer lengths, printing, flushing, cursor movement and the 19-parameter pen on an xterm terminal with both capabilities; all sequences of <=3 operations over a 10-letter alphabet of timers and deferred calls whose callbacks register further (past, present, future) timers and deferred calls; 576 drags on root>1>2 (8 handler behaviours of the source x bound before/after the press x claiming or not x 6 ways of dropping the chain afterwards x 3 continuations)", "histories": nh})
 else:
     scale = 1 if a.tier == "quick" else 5
     fams = {"tree": 700, "handlers": 700, "foreign": 400, "objects": 400, "pens": 400, "copyout": 400, "terminput": 500, "toplevel": 500, "mockresize": 360, "sigwinch": 400, "drag": 400, "timers": 300, "termout": 400}
